@@ -170,6 +170,10 @@ def run_oracles(prog, meta, sessions):
             if k.startswith('bug') or k.startswith('other'):
                 out.append(('C19', 'internal-error ' + k.split(':')[0], '%s: build failed with an internal error: %s' % (where, k)))
 
+        # ---- C05 / C06: every read / write that was let through must be justified by the dependencies recorded so far
+        for (pr, sig, m) in shadow.session(s.events, kinds):
+            out.append((pr, sig, '%s: %s' % (where, m)))
+
         # ---- C20: well-formed programs never abort with a diagnosis
         for k in kinds:
             if k in ('cycle', 'hidden', 'overlap'):
@@ -179,17 +183,15 @@ def run_oracles(prog, meta, sessions):
                 elif prog.kind == 'roles' and s.fresh_all is not None:
                     if all('abort' not in x for x in s.fresh_all):
                         suffix, why = stale_owner_status(s, k, prev_nodes)
+                        if genuine_hidden_read(s, k, shadow): continue
                         if is_bu: suffix += '-bottom-up'      # the recorded role-inversion findings are top-down patterns
                         out.append(('C20', 'spurious-' + k + suffix, '%s: incremental build aborted with %s but from-scratch builds of all known tasks (two orders) in the current state succeed%s' % (where, k, why)))
                 elif had_abort and s.fresh_all is not None and prog.kind in ('inject', 'panic'):
                     # C19: after an abort, a later build may abort again only for a violation that still exists
                     if all('abort' not in x for x in s.fresh_all):
                         suffix, why = stale_owner_status(s, k, prev_nodes)
+                        if genuine_hidden_read(s, k, shadow): continue
                         out.append(('C19', 'spurious-' + k + '-after-abort' + suffix, '%s: after an earlier abort, the incremental build aborted with %s although from-scratch builds of all known tasks (two orders) in the current state succeed%s' % (where, k, why)))
-
-        # ---- C05 / C06: every read / write that was let through must be justified by the dependencies recorded so far
-        for (pr, sig, m) in shadow.session(s.events, kinds):
-            out.append((pr, sig, '%s: %s' % (where, m)))
 
         # ---- C06: re-execution of the same writer is never an overlap
         if 'overlap' in kinds and s.events:
@@ -223,6 +225,17 @@ def run_oracles(prog, meta, sessions):
                     r = maps_equal_mod_writer_view(prog, s.map, s.fresh_map)
                     if r is not None:
                         out.append((prop, 'stale-resource', '%s: resource %d holds %r after the incremental build, %r after a from-scratch build' % (where, r, s.map.get(r), s.fresh_map.get(r))))
+
+        # ---- C19 / C01: a build returns a value only if a from-scratch build of the same state returns too: when the from-scratch
+        # reference is aborted by a task panic, the violation still exists and the incremental build must hit it as well.  Exact
+        # checkers only (a coarse checker may legitimately keep reusing a task whose unseen input change would make it panic)
+        if q_only and s.fresh_ops is not None and prog.exact_only and prog.kind in ('panic', 'wf') and not prog.uses_failing:
+            for a_, b_ in zip(s.ops, s.fresh_ops):
+                if 'abort' in b_:
+                    if 'abort panic' in b_ and 'abort' not in a_:
+                        out.append(('C19' if had_abort else 'C01', 'returned-although-from-scratch-aborts', '%s: incremental %r but a from-scratch build of the same state is aborted by a task panic: %r' % (where, a_, b_)))
+                    break
+                if 'abort' in a_: break
 
         # ---- C02 / C04: multiplicity
         for t, n in counts.items():
@@ -315,6 +328,18 @@ def run_oracles(prog, meta, sessions):
             elif s.fresh_ops is not None and all('abort' not in o for o in s.fresh_ops) and s.ops != s.fresh_ops:
                 d = next((a, b) for a, b in zip(s.ops, s.fresh_ops) if a != b)
                 out.append(('C03', 'stale-output-after-bottom-up', '%s: %r but from scratch %r' % (where, d[0], d[1])))
+
+        # ---- C04: a task is scheduled only directly after a check of one of ITS OWN dependencies that did not say "consistent"
+        # (the event before `ST t` is the end of a check of t: CDE t .. inc|err, or CQE t .. 1)
+        if is_bu:
+            evs = [e.split() for e in s.events]
+            for j, f in enumerate(evs):
+                if f[0] != 'ST': continue
+                g = evs[j - 1] if j > 0 else ['?']
+                okj = (g[0] == 'CDE' and g[1] == f[1] and g[-1] != 'ok') or (g[0] == 'CQE' and g[1] == f[1] and g[-1] == '1')
+                if not okj:
+                    out.append(('C04', 'scheduled-without-failed-check', '%s: task %s was scheduled although the event before is not a failed / inconsistent check of one of its own dependencies (%s)' % (where, f[1], ' '.join(g))))
+                    break
 
         # ---- C09 (C04): after a task was executed in a bottom-up build, every task that holds a recorded require of it is checked with its
         # own checker against the new output.  Judged for requirers that held the dependency when the session began and have not
@@ -681,6 +706,26 @@ def top_level_require_ends(events):
         elif f[0] == 'BS':
             depth = 0
     return res
+
+
+def genuine_hidden_read(s, kind, shadow):
+    """a hidden-dependency abort on the READ side is genuine -- whatever order a from-scratch reference happened to use -- when the
+    resource is written by a task that was executed or validated in THIS session (so its recorded write is what it does in the
+    current state) and that the reader has not (transitively) required so far in its current execution: the reader reads before it
+    requires (or without requiring)"""
+    if kind != 'hidden' or not s.events: return False
+    last = s.events[-1].split()
+    if last[0] != 'rS': return False
+    stack = []; ran = set()          # ran: executed or validated in this session, so what the bookkeeping holds about them is current
+    for e in s.events:
+        f = e.split()
+        if f[0] == 'BS': stack = []
+        elif f[0] == 'XS': stack.append(int(f[1])); ran.add(int(f[1]))
+        elif f[0] == 'XE' and stack: stack.pop()
+        elif f[0] in ('RS', 'CTS'): ran.add(int(f[1]))
+    if not stack: return False
+    t, r = stack[-1], last[1]
+    return any(r in rs and x != t and x in ran and not shadow.reach(t, x) for x, rs in shadow.writes.items())
 
 
 def stale_owner_status(s, kind, prev_nodes):
